@@ -929,7 +929,7 @@ func c03NoChangeExits(c *core.Ctx, R string, fn *an.Fn, calls []an.Call) {
 		okGuard := false
 		if guard != nil {
 			// the guard in conjunctive form (negations pushed inwards): some clause must contain "the change is empty"
-			for _, clause := range cnf(guard, false) {
+			for _, clause := range cnf(fn, guard, false, 0) {
 				for _, lit := range clause {
 					be, ok := an.Unparen(lit.e).(*ast.BinaryExpr)
 					if !ok {
@@ -969,23 +969,34 @@ type c03Lit struct {
 
 // cnf returns e (negated when neg) as a conjunction of clauses of literals; !, && and || are interpreted,
 // everything else is a literal. Small guards only (the product is not bounded).
-func cnf(e ast.Expr, neg bool) [][]c03Lit {
+func cnf(fn *an.Fn, e ast.Expr, neg bool, depth int) [][]c03Lit {
 	e = an.Unparen(e)
 	switch x := e.(type) {
+	case *ast.Ident:
+		// a boolean local with one definition stands for the expression it holds
+		if depth < 3 {
+			if obj := fn.ObjOf(x); obj != nil {
+				if b, ok := obj.Type().Underlying().(*types.Basic); ok && b.Kind() == types.Bool {
+					if d, ok := fn.SingleDefExpr(obj); ok {
+						return cnf(fn, d, neg, depth+1)
+					}
+				}
+			}
+		}
 	case *ast.UnaryExpr:
 		if x.Op == token.NOT {
-			return cnf(x.X, !neg)
+			return cnf(fn, x.X, !neg, depth)
 		}
 	case *ast.BinaryExpr:
 		and := x.Op == token.LAND && !neg || x.Op == token.LOR && neg
 		or := x.Op == token.LOR && !neg || x.Op == token.LAND && neg
 		if and {
-			return append(cnf(x.X, neg), cnf(x.Y, neg)...)
+			return append(cnf(fn, x.X, neg, depth), cnf(fn, x.Y, neg, depth)...)
 		}
 		if or {
 			var out [][]c03Lit
-			for _, a := range cnf(x.X, neg) {
-				for _, b := range cnf(x.Y, neg) {
+			for _, a := range cnf(fn, x.X, neg, depth) {
+				for _, b := range cnf(fn, x.Y, neg, depth) {
 					out = append(out, append(append([]c03Lit{}, a...), b...))
 				}
 			}
